@@ -103,7 +103,17 @@ def handle_joint(req):
             j = np.asarray(j)
             if s.shape != j.shape or not np.array_equal(s, j, equal_nan=s.dtype.kind in "fc"):
                 bad.append(i)
-        return {"status": "ok", "bad": bad, "names": [x.name for x in xs]}
+        solo = [np.asarray(x.compute()) for x in xs]
+        bad_pairs = []
+        for i in range(len(xs)):
+            for j in range(i + 1, len(xs)):
+                if solo[i].shape == solo[j].shape and solo[i].dtype.kind in "iuf" and solo[j].dtype.kind in "iuf" and len(bad_pairs) < 8:
+                    d = np.asarray((xs[i] - xs[j]).compute())
+                    w = solo[i] - solo[j]
+                    if d.shape != w.shape or not np.array_equal(d, w, equal_nan=True):
+                        bad_pairs.append([i, j])
+        return {"status": "ok", "bad": bad, "bad_pairs": bad_pairs, "names": [x.name for x in xs],
+                "values": [P.enc_value(v) for v in solo]}
     except NotImplementedError as ex:
         return {"status": "unsupported", "error": str(ex)[:200]}
     except Exception as ex:
